@@ -708,7 +708,7 @@ func ruleFiltersNeverStop(c *Ctx) {
 		}
 		atLimit := false
 		for _, f := range fg.DominatingFacts(r) {
-			if be, ok := ast.Unparen(f.E).(*ast.BinaryExpr); ok && !f.Neg && be.Op == token.EQL &&
+			if be, ok := ast.Unparen(f.E).(*ast.BinaryExpr); ok && (!f.Neg && be.Op == token.EQL || f.Neg && be.Op == token.NEQ) &&
 				(selField(info, be.X) == items && selField(info, be.Y) == limit || selField(info, be.X) == limit && selField(info, be.Y) == items) {
 				atLimit = true
 			}
